@@ -25,6 +25,7 @@ BUNDLES = {'B1': (0, 0), 'B2': (128, 0), 'B3': (0, 128)}          # id -> (c, r)
 SLOTS = {'s1': (0, 0), 's2': (127, 5), 's3': (5, 127), 's4': (64, 64)}
 PAYLOADS = ['b1', 'b2', 'b3']
 MASK40 = (1 << 40) - 1
+FAR = (1 << 32) + 4096          # "far" worlds: the next record of a bundle lands beyond 4 GiB (a sparse hole before it)
 
 
 def lens():
@@ -60,11 +61,46 @@ def _records(data, start):
     return recs
 
 
-def parse_bundle(cache_dir, bid, version, slots):
+def _parse_far(bf, o, slots, used, holes):
+    """version 2 bundle with sparse holes (start, end) between its records: read around the holes and give every
+    offset as it would be without them - the files of the model have no holes"""
+    def shift(pos):
+        return pos - sum(e - b for b, e in holes if e <= pos)
+    size = os.path.getsize(bf)
+    with open(bf, 'rb') as f:
+        head = f.read(64 + 131072)
+        hdr = struct.unpack_from('<4I3Q6I', head, 0)
+        o['fsize'], o['hmax'], o['hsize'] = shift(size), hdr[2], shift(hdr[5])
+        for y in range(128):
+            for x in range(128):
+                if (x, y) in used:
+                    continue
+                val = struct.unpack_from('<Q', head, 64 + (x + 128 * y) * 8)[0]
+                if (val & MASK40, val >> 40) != (4, 0):
+                    o['foreign'] += 1
+        for s in slots:
+            x, y = SLOTS[s]
+            val = struct.unpack_from('<Q', head, 64 + (x + 128 * y) * 8)[0]
+            o['index'][s] = [shift(val & MASK40), val >> 40]
+        pos = 64 + 131072
+        for b, e in sorted(holes) + [(size, size)]:
+            if b > pos:
+                f.seek(pos)
+                seg = f.read(b - pos)
+                for r in _records(seg, 0):
+                    o['recs'].append([shift(pos + r[0]), r[1], r[2]])
+            pos = max(pos, e)
+    o['haveindex'] = True
+    return o
+
+
+def parse_bundle(cache_dir, bid, version, slots, holes=None):
     bf, xf = bundle_paths(cache_dir, bid)
     o = {'present': os.path.exists(bf), 'haveindex': False, 'index': {s: [0, 0] for s in slots}, 'recs': [],
          'fsize': 0, 'hmax': 0, 'hsize': 0, 'hcount': 0, 'foreign': 0}
     used = {SLOTS[s] for s in slots}
+    if version == 2 and holes and o['present']:
+        return _parse_far(bf, o, slots, used, holes)
     if version == 2:
         if not o['present']:
             return o
@@ -143,9 +179,11 @@ def structurally_valid(o, version, slots):
 
 # ---- the real cache ------------------------------------------------------------------------------------
 class World(object):
-    def __init__(self, version, bundles, slots):
+    def __init__(self, version, bundles, slots, far=False):
         from mapproxy.cache.compact import CompactCacheV1, CompactCacheV2
         self.version, self.bundles, self.slots = version, list(bundles), list(slots)
+        self.far = bool(far) and version == 2
+        self.holes = {b: [] for b in bundles}
         self.dir = tempfile.mkdtemp(prefix='verif-c19-')
         self.cache_dir = os.path.join(self.dir, 'c')
         self.cls = CompactCacheV1 if version == 1 else CompactCacheV2
@@ -159,7 +197,24 @@ class World(object):
         x, y = SLOTS[s]
         return (c + x, r + y, LEVEL, None)
 
+    def _make_far(self, b):
+        """a bundle that has grown past 4 GiB (years of overwrites without defragmentation): a sparse hole stands for
+        the dead records, the file size field of the header is moved along"""
+        bf, _ = bundle_paths(self.cache_dir, b)
+        if not os.path.exists(bf):
+            return
+        size = os.path.getsize(bf)
+        if size >= FAR:
+            return
+        os.truncate(bf, FAR)
+        with open(bf, 'r+b') as f:
+            f.seek(24)
+            f.write(struct.pack('<Q', FAR))
+        self.holes[b].append((size, FAR))
+
     def store(self, b, ps):
+        if self.far:
+            self._make_far(b)
         pairs = [(self.addr(b, s), B.payload(d)) for s, d in ps]
         if len(pairs) == 1:
             B.op_store(self.cache, pairs[0][0], pairs[0][1])
@@ -175,6 +230,10 @@ class World(object):
     def tiles(self):
         """every address read through a fresh cache object - on a COPY of the directory, because a V1 load can
         create an (empty) bundle file and the projection must not change what it observes"""
+        if self.far:
+            # (4 GiB sparse files are not copied; a load of the version 2 format creates nothing)
+            c = self.cls(self.cache_dir)
+            return {(b, s): B.name_of(B.op_load(c, self.addr(b, s)), PAYLOADS) for b in self.bundles for s in self.slots}
         snap = self.dir + '-snap'
         shutil.rmtree(snap, ignore_errors=True)
         if os.path.exists(self.cache_dir):
@@ -188,9 +247,15 @@ class World(object):
     def defrag(self, mb, mp):
         from mapproxy.script.defrag import defrag_compact_cache
         defrag_compact_cache(self.cls(self.cache_dir), min_percent=mp / 1000.0, min_bytes=mb)
+        if self.far:
+            # a bundle that was rewritten has no holes any more
+            for b in self.bundles:
+                bf, _ = bundle_paths(self.cache_dir, b)
+                if not os.path.exists(bf) or os.path.getsize(bf) < FAR:
+                    self.holes[b] = []
 
     def obs(self):
-        return {b: parse_bundle(self.cache_dir, b, self.version, self.slots) for b in self.bundles}
+        return {b: parse_bundle(self.cache_dir, b, self.version, self.slots, holes=self.holes[b]) for b in self.bundles}
 
     def leftovers(self):
         out = []
@@ -225,8 +290,8 @@ def compare(state, obs, version, slots):
     return None
 
 
-def replay_behaviour(ctx, version, bundles, slots, beh):
-    w = World(version, bundles, slots)
+def replay_behaviour(ctx, version, bundles, slots, beh, far=False):
+    w = World(version, bundles, slots, far=far)
     try:
         for i, (act, st) in enumerate(beh[1:]):
             op = str(st['reply']['op'])
@@ -275,8 +340,8 @@ def replay_behaviour(ctx, version, bundles, slots, beh):
         w.close()
 
 
-def random_history(rng, version, bundles, slots, nops):
-    w = World(version, bundles, slots)
+def random_history(rng, version, bundles, slots, nops, far=False):
+    w = World(version, bundles, slots, far=far)
     ev = []
     problem = None
     try:
@@ -297,6 +362,8 @@ def random_history(rng, version, bundles, slots, nops):
                 e = {'op': 'load', 'b': b, 's': s, 'val': w.load(b, s)}
             else:
                 mb, mp = rng.choice([0, 100, 500]), rng.choice([0, 1, 3])
+                if far:
+                    mb = mp = 0       # (the thresholds look at real file sizes: with the hole every bundle is "fragmented")
                 before, sizes = w.tiles(), {bb: o['fsize'] for bb, o in w.obs().items()}
                 w.defrag(mb, mp)
                 after = w.tiles()
@@ -367,13 +434,13 @@ def run(ctx):
                 raise tlc.MachineryError('vacuity: %s never taken' % a)
         ctx.add_tlc('Bundle/v%d/%d-bundles' % (v, len(bs)), r)
 
-    # (R) spec -> code
-    for v in (1, 2):
+    # (R) spec -> code; "far": version 2 bundles whose records lie beyond 4 GiB (the index keeps 40-bit offsets)
+    for v, far in ((1, False), (2, False), (2, True)):
         bs, ss = ['B1', 'B2'], ['s1', 's2', 's3']
-        d = ctx.sub('sim-v%d' % v)
-        mp, cp = tlc.write_mc(d, 'Bundle', 'MC_Sim', consts(v, bs, ss, mb=(0, 100), mp=(0, 1)))
+        d = ctx.sub('sim-v%d%s' % (v, '-far' if far else ''))
+        mp, cp = tlc.write_mc(d, 'Bundle', 'MC_Sim', consts(v, bs, ss, mb=(0, 100) if not far else (0,), mp=(0, 1) if not far else (0,)))
         prefix = os.path.join(d, 'beh')
-        n = 150 if thorough else 30
+        n = (150 if thorough else 30) if not far else (60 if thorough else 15)
         r = tlc.run(mp, cp, d, workers=1, simulate='file=%s,num=%d' % (prefix, n), depth=25 if thorough else 14,
                     seed=ctx.seed + 5, coverage=False, timeout=1200)
         k = 0
@@ -381,35 +448,35 @@ def run(ctx):
             if len(beh) < 2:
                 continue
             k += 1
-            res = replay_behaviour(ctx, v, bs, ss, beh)
+            res = replay_behaviour(ctx, v, bs, ss, beh, far=far)
             ctx.cov['replayed_behaviours'] += 1
             ctx.cov['replayed_steps'] += len(beh) - 1
-            ctx.count(('replay', v, tuple(a for a, _ in beh)))
+            ctx.count(('replay', v, far, tuple(a for a, _ in beh)))
             if k == 1:
                 ctx.sample({'kind': 'TLC behaviour replayed on CompactCacheV%d, files parsed after each step' % v,
                             'actions': [a for a, _ in beh[1:]][:10]})
             if res:
                 i, what = res
                 act = str(beh[i + 1][1]['reply']['op'])
-                ctx.violation({'kind': 'replay', 'version': v, 'op': act}, 'compact v%d: %s' % (v, what),
-                              {'version': v, 'behaviour': [a for a, _ in beh], 'failed_at': i})
+                ctx.violation({'kind': 'replay', 'version': v, 'op': act}, 'compact v%d%s: %s' % (v, ' (bundle beyond 4 GiB)' if far else '', what),
+                              {'version': v, 'far': far, 'behaviour': [a for a, _ in beh], 'failed_at': i})
                 break
         if k == 0:
             raise tlc.MachineryError('no behaviours for v%d: %s' % (v, r.out[-1000:]))
-        ctx.log('v%d: replayed %d behaviours' % (v, k))
+        ctx.log('v%d%s: replayed %d behaviours' % (v, ' far' if far else '', k))
 
     # (T) code -> spec
-    for v in (1, 2):
+    for v, far in ((1, False), (2, False), (2, True)):
         bs, ss = ['B1', 'B2', 'B3'], ['s1', 's2', 's3', 's4']
         traces = []
-        for i in range(40 if thorough else 8):
-            ev, problem = random_history(ctx.rng, v, bs, ss, 80 if thorough else 30)
-            ctx.count(('hist', v, i, len(ev)))
+        for i in range((40 if thorough else 8) if not far else (16 if thorough else 5)):
+            ev, problem = random_history(ctx.rng, v, bs, ss, 80 if thorough else 30, far=far)
+            ctx.count(('hist', v, far, i, len(ev)))
             if problem:
                 ctx.violation({'kind': 'property-on-files', 'version': v, 'op': ev[-1]['op']},
                               'compact v%d: %s' % (v, problem[1]), {'version': v, 'events': ev})
             traces.append(ev)
-        r, rejected = validate(ctx, 'v%d' % v, v, bs, ss, traces)
+        r, rejected = validate(ctx, 'v%d%s' % (v, '-far' if far else ''), v, bs, ss, traces)
         ctx.cov['traces_validated_against_impl'] += len(traces)
         ctx.cov['states'] += r.distinct
         ctx.cov['transitions'] += r.generated
@@ -422,7 +489,9 @@ def run(ctx):
                           {'version': v, 'events': traces[i][:upto + 1]})
         ctx.log('v%d: validated %d histories (%d rejected)' % (v, len(traces), len(rejected)))
     ctx.assumptions += ['single writer at a time (writers are serialised by the bundle lock, see C07)',
-                        'payload lengths are those of the harness PNGs; defrag thresholds from a small set']
+                        'payload lengths are those of the harness PNGs; defrag thresholds from a small set',
+                        'bundles beyond 4 GiB (version 2): the dead records are a sparse hole that the harness makes before a store, the parser '
+                        'reads around it and reports offsets as they would be without it; thresholds 0/0 only']
     return ctx.finish('model_checking',
                       'TLC: all store/overwrite/remove/defrag histories up to the stated depth over 1-2 bundles x 2 slots x 2 '
                       'payloads, both formats; distinct = distinct TLC behaviours replayed with byte-level state comparison plus '
